@@ -8,6 +8,7 @@ From PGV Require Import Model.RuleText Model.Value Model.Clause Model.Rules Mode
 From PGV Require Import Spec.RuleTextSpec Spec.ExplainSpec.
 From PGV Require Import Proofs.RuleTextProofs Proofs.RuleContract Proofs.C15Final Proofs.ExplainProofs.
 From PGV Require Import Base.MiniGo Extracted.SourceFnsMsg Model.GoParse Proofs.GoMsgProofs.
+From PGV Require Import Extracted.SourceFnsParse Proofs.GoParseProofs Extracted.SourceFnsRule Extracted.SourceFnsFmt Model.GoRule Proofs.GoMsgDiscipline Proofs.GoExplainProofs.
 
 (* the label: Chinese when the message contains a CJK character (the class of the source's
    IncludeZhRe), English otherwise; then one blank and the message unchanged *)
@@ -40,6 +41,37 @@ Theorem C15_custom_from_source : forall obj field echo m,
 Proof. exact custom_from_source. Qed.
 Print Assumptions C15_custom_from_source.
 
+(* GetJoinFieldErr (valid/common.go), the clause of a rule that cannot be read, likewise from its syntax tree (a type switch
+   on the error argument: a string, an error, anything else): quoted path, the text, the separator — never empty, so a
+   rule-writing error is never silent (the FE of the rule-function theorems of C01 / C05 can be taken to be this) *)
+Theorem C15_field_error_from_source : forall obj field : str,
+  (forall t, run_field_err fn_GetJoinFieldErr obj field (PS t) = Some (field_err_text obj field (PS t))) /\
+  (forall t, run_field_err fn_GetJoinFieldErr obj field (PE t) = Some (field_err_text obj field (PE t))) /\
+  run_field_err fn_GetJoinFieldErr obj field PO = Some (field_err_text obj field PO).
+Proof. exact field_err_from_source. Qed.
+Print Assumptions C15_field_error_from_source.
+
+(* ... and the label is chosen by the parser from the MESSAGE alone: ParseValidNameKV's syntax tree, regenerated on every
+   run, computes parse_kv (whose message part is label m, see C15_label) on every rule text — a CJK rule argument does
+   not decide it *)
+Theorem C15_parser_from_source : forall s : str, run_parse fn_ParseValidNameKV s = Some (parse_kv s).
+Proof. exact parse_from_source. Qed.
+Print Assumptions C15_parser_from_source.
+
+(* THE DISCIPLINE, FROM THE SOURCE TEXT OF 24 RULE FUNCTIONS (to oto ge gt le lt eq noeq phone email idcard ip ipv4 ipv6
+   year year2month date prefix suffix int float json file dir; in include ints unique re datetime are hand-modelled):
+   for every rule text, names and value each of them returns, and what it wrote is nothing, or ONE clause of
+   GetJoinValidErrStr whose explanation is the rule's message alone when the rule text has one (sh_custom) and the default
+   wording behind the English label only when it has none (sh_default; for an unreadable path os.Stat's text, sh_stat);
+   the exceptions come before the message is looked at: a value of the wrong kind (sh_kind), a rule that cannot be
+   read (sh_rule). *)
+Theorem C15_message_discipline_from_source :
+  forall (orc : oracles) (U : val -> str) (FE : str -> str -> ftext -> str) (ST : str -> str) f vn obj field v,
+  In f rule_fns ->
+  exists t, run_rule orc U FE ST f vn obj field v = Some t /\ shape FE ST vn obj field t.
+Proof. exact message_discipline. Qed.
+Print Assumptions C15_message_discipline_from_source.
+
 (* every rule function that supports a message: its clause carries the message of the rule text
    when there is one and the default wording only when there is none *)
 Theorem C15_message_or_default :
@@ -60,6 +92,15 @@ Theorem C15_extract : forall cs, cs <> [] -> Forall clean1 cs -> join ErrEndFlag
   only_explain (join ErrEndFlag (map render1 cs)) = join ErrEndFlag (explanations cs).
 Proof. exact extract_exact. Qed.
 Print Assumptions C15_extract.
+
+(* THE EXTRACTOR FROM THE SOURCE TEXT.  fn_GetOnlyExplainErr is the go/ast syntax tree of GetOnlyExplainErr (valid/init.go,
+   with the repair), regenerated on every run.  Under the semantics of Model/GoParse.v (strings.Split on the two-byte
+   separator, strings.Index on the labels, the slice with its run-time bound, strings.TrimPrefix, the builder, continue)
+   it computes the model's only_explain — the function C15_extract is about — on EVERY text, by an invariant over the
+   clauses; in particular it never slices out of range: "never fails". *)
+Theorem C15_extractor_from_source : forall msg : str, run_explain fn_GetOnlyExplainErr msg = Some (only_explain msg).
+Proof. exact explain_from_source. Qed.
+Print Assumptions C15_extractor_from_source.
 
 (* non-vacuity: the three witnesses of the repaired defect (unlabelled before labelled, English
    before Chinese, trailing unlabelled) *)
